@@ -96,7 +96,8 @@ def rule_accesspath(P) -> RuleResult:
             if c.kind != 'func':
                 continue
             n += 1
-            got = access_summary(c.impl)
+            from .sx_tables import access_summary as term_summary
+            got = term_summary(P, c.impl)
             key = f'{tn}.{name}'
             # a column inherited by the postings table from the entries table has the entries accessor
             want = table.get(key) or (table.get(f'EntriesTable.{name}') if c.impl.module.classes.get('PostingsTable') and
